@@ -1,9 +1,1565 @@
-//! group `zonefile` — stub (not built yet).
-#![allow(unused)]
+//! group `zonefile` — C23, C24: src/zone_file (in-memory parser) through the public API.
+//!
+//! ops (see lean/QV/Driver/Zonefile.lean): zf, zfc, zfp, zfv, zf.u32 … zf.utf8
 use crate::common::*;
+use quandary::class::Class;
+use quandary::rr::Type;
+use quandary::zone_file::{Error, Line, LineContent, Parser};
+use std::io::{Cursor, Read};
+use std::net::{Ipv4Addr, Ipv6Addr};
 
-pub fn run(_op: &str, _a: &[&str]) -> Option<String> {
-    None
+// ------------------------------------------------------------------------------------------
+// running the real parser
+// ------------------------------------------------------------------------------------------
+
+/// A `Read` that hands out at most `k` octets per call (k = 0: everything that fits).
+pub struct ChunkRead {
+    data: Vec<u8>,
+    pos: usize,
+    k: usize,
 }
 
-pub fn gen(_rng: &mut Rng, _thorough: bool, _em: &mut Emitter) {}
+impl ChunkRead {
+    pub fn new(data: &[u8], k: usize) -> Self {
+        ChunkRead { data: data.to_vec(), pos: 0, k }
+    }
+}
+
+impl Read for ChunkRead {
+    fn read(&mut self, buf: &mut [u8]) -> std::io::Result<usize> {
+        let left = self.data.len() - self.pos;
+        let mut n = left.min(buf.len());
+        if self.k > 0 {
+            n = n.min(self.k);
+        }
+        buf[..n].copy_from_slice(&self.data[self.pos..self.pos + n]);
+        self.pos += n;
+        Ok(n)
+    }
+}
+
+pub fn show_line(l: &Line) -> String {
+    match &l.content {
+        LineContent::Record(r) => format!(
+            "rec:{}:{}:{}:{}:{}:{}",
+            l.number,
+            hex(r.owner.wire_repr()),
+            u32::from(r.ttl),
+            u16::from(r.class),
+            u16::from(r.rr_type),
+            hex(r.rdata.octets())
+        ),
+        LineContent::Include(i) => format!(
+            "inc:{}:{}:{}",
+            l.number,
+            hex(&i.path),
+            match &i.origin {
+                Some(o) => hex(o.wire_repr()),
+                None => "none".to_string(),
+            }
+        ),
+    }
+}
+
+pub enum Y {
+    Item(Line),
+    Err(Error),
+}
+
+fn err_line(e: &Error) -> usize {
+    match e {
+        Error::Syntax(d) => d.line(),
+        Error::Io(_) => 0,
+    }
+}
+
+fn err_kind(e: &Error) -> String {
+    match e {
+        Error::Syntax(d) => {
+            let s = format!("{:?}", d.kind());
+            s.split(|c: char| !c.is_ascii_alphanumeric()).next().unwrap_or("").to_string()
+        }
+        Error::Io(_) => "Io".to_string(),
+    }
+}
+
+fn parse_chunk(ch: &str) -> Option<(bool, usize)> {
+    let (ro, n) = match ch.strip_prefix('r') {
+        Some(r) => (true, r),
+        None => (false, ch),
+    };
+    let k: usize = n.parse().ok()?;
+    if k > 7 {
+        return None;
+    }
+    Some((ro, k))
+}
+
+/// Everything the iterator yields; after the iterator stops (None or Err) `next` is called three
+/// more times and whatever it still yields is appended (the error latch).
+pub fn run_parser(prelude: &[u8], input: &[u8], ro: bool, k: usize) -> Vec<Y> {
+    let mut pre = Parser::new(Cursor::new(prelude.to_vec()));
+    for _ in pre.by_ref() {}
+    let p = pre.new_for_include(ChunkRead::new(input, k), None);
+    let mut out = Vec::new();
+    if ro {
+        let mut it = p.records_only();
+        let mut after = 0;
+        while after < 4 {
+            match it.next() {
+                Some(Ok(l)) => out.push(Y::Item(Line { number: l.number, content: LineContent::Record(l.record) })),
+                Some(Err(e)) => {
+                    out.push(Y::Err(e));
+                    after += 1;
+                }
+                None => after += 1,
+            }
+        }
+    } else {
+        let mut it = p;
+        let mut after = 0;
+        while after < 4 {
+            match it.next() {
+                Some(Ok(l)) => out.push(Y::Item(l)),
+                Some(Err(e)) => {
+                    out.push(Y::Err(e));
+                    after += 1;
+                }
+                None => after += 1,
+            }
+        }
+    }
+    out
+}
+
+fn show_ys(ys: &[Y]) -> String {
+    if ys.is_empty() {
+        return "ok -".to_string();
+    }
+    let v: Vec<String> = ys
+        .iter()
+        .map(|y| match y {
+            Y::Item(l) => show_line(l),
+            Y::Err(e) => format!("err@{}", err_line(e)),
+        })
+        .collect();
+    format!("ok {}", v.join(";"))
+}
+
+fn verdict(ys: &[Y]) -> String {
+    for (i, y) in ys.iter().enumerate() {
+        match y {
+            Y::Err(_) => {
+                if i + 1 != ys.len() {
+                    return "bad:yield-after-error".into();
+                }
+            }
+            Y::Item(l) => match &l.content {
+                LineContent::Include(inc) => {
+                    if let Some(o) = &inc.origin {
+                        if quandary::name::Name::validate_uncompressed_all(o.wire_repr()).is_err() {
+                            return "bad:include-origin".into();
+                        }
+                    }
+                }
+                LineContent::Record(r) => {
+                    if quandary::name::Name::validate_uncompressed_all(r.owner.wire_repr()).is_err() {
+                        return "bad:owner".into();
+                    }
+                    if r.rr_type == Type::NULL || r.rr_type == Type::OPT || r.rr_type == Type::TSIG {
+                        return "bad:type".into();
+                    }
+                    if r.rdata.validate(r.class, r.rr_type).is_err() {
+                        return "bad:rdata".into();
+                    }
+                }
+            },
+        }
+    }
+    "ok".into()
+}
+
+fn final_kind(ys: &[Y]) -> String {
+    match ys.last() {
+        Some(Y::Err(e)) => format!("err:{}", err_kind(e)),
+        _ => "ok".into(),
+    }
+}
+
+fn std_op<T, F: Fn(&str) -> Option<T>, S: Fn(T) -> String>(h: &str, f: F, s: S) -> Option<String> {
+    let b = unhex(h)?;
+    Some(guarded(|| match std::str::from_utf8(&b) {
+        Ok(t) => match f(t) {
+            Some(v) => format!("ok {}", s(v)),
+            None => "err".into(),
+        },
+        Err(_) => "err".into(),
+    }))
+}
+
+pub fn run(op: &str, a: &[&str]) -> Option<String> {
+    match (op, a) {
+        ("zf", [pre, inp, ch]) | ("zfc", [pre, inp, ch]) | ("zfv", [pre, inp, ch]) | ("zfp", [pre, inp, ch, _]) => {
+            let (Some(p), Some(i), Some((ro, k))) = (unhex(pre), unhex(inp), parse_chunk(ch)) else {
+                return Some("bad-op".into());
+            };
+            Some(guarded(|| {
+                let ys = run_parser(&p, &i, ro, k);
+                match op {
+                    "zfc" => verdict(&ys),
+                    "zfv" => final_kind(&ys),
+                    _ => show_ys(&ys),
+                }
+            }))
+        }
+        ("zf.u32", [h]) => std_op(h, |t| t.parse::<u32>().ok(), |v| v.to_string()),
+        ("zf.u16", [h]) => std_op(h, |t| t.parse::<u16>().ok(), |v| v.to_string()),
+        ("zf.u8", [h]) => std_op(h, |t| t.parse::<u8>().ok(), |v| v.to_string()),
+        ("zf.ipv4", [h]) => std_op(h, |t| t.parse::<Ipv4Addr>().ok(), |v| hex(&v.octets())),
+        ("zf.ipv6", [h]) => std_op(h, |t| t.parse::<Ipv6Addr>().ok(), |v| hex(&v.octets())),
+        ("zf.class", [h]) => std_op(h, |t| t.parse::<Class>().ok(), |v| u16::from(v).to_string()),
+        ("zf.type", [h]) => std_op(h, |t| t.parse::<Type>().ok(), |v| u16::from(v).to_string()),
+        ("zf.utf8", [h]) => {
+            let b = unhex(h)?;
+            Some(format!("ok {}", if std::str::from_utf8(&b).is_ok() { 1 } else { 0 }))
+        }
+        _ => None,
+    }
+}
+
+// ------------------------------------------------------------------------------------------
+// the pretty-printer (C23 oracle): a random record list rendered with random presentation
+// choices; the expected parse is the record list itself
+// ------------------------------------------------------------------------------------------
+
+#[derive(Clone, Debug, PartialEq)]
+pub struct Rr {
+    pub owner: Vec<Vec<u8>>, // labels (no root)
+    pub ttl: u32,
+    pub class: u16,
+    pub ty: u16,
+    pub rdata: Rd,
+}
+
+#[derive(Clone, Debug, PartialEq)]
+pub enum Rd {
+    Name(Vec<Vec<u8>>),
+    A([u8; 4]),
+    ChA(Vec<Vec<u8>>, u16),
+    Soa(Vec<Vec<u8>>, Vec<Vec<u8>>, [u32; 5]),
+    Wks([u8; 4], u8, Vec<u16>),
+    Hinfo(Vec<u8>, Vec<u8>),
+    Minfo(Vec<Vec<u8>>, Vec<Vec<u8>>),
+    Mx(u16, Vec<Vec<u8>>),
+    Txt(Vec<Vec<u8>>),
+    Aaaa([u8; 16]),
+    Srv(u16, u16, u16, Vec<Vec<u8>>),
+    Raw(Vec<u8>),
+}
+
+pub fn name_wire(labels: &[Vec<u8>]) -> Vec<u8> {
+    let mut w = Vec::new();
+    for l in labels {
+        w.push(l.len() as u8);
+        w.extend_from_slice(l);
+    }
+    w.push(0);
+    w
+}
+
+impl Rd {
+    /// the harness's own wire encoding (independent of quandary's `Rdata::new_*`)
+    pub fn wire(&self) -> Vec<u8> {
+        let mut w = Vec::new();
+        match self {
+            Rd::Name(n) => w = name_wire(n),
+            Rd::A(a) => w.extend_from_slice(a),
+            Rd::ChA(n, a) => {
+                w = name_wire(n);
+                w.extend_from_slice(&a.to_be_bytes());
+            }
+            Rd::Soa(m, r, v) => {
+                w = name_wire(m);
+                w.extend(name_wire(r));
+                for x in v {
+                    w.extend_from_slice(&x.to_be_bytes());
+                }
+            }
+            Rd::Wks(a, p, ports) => {
+                w.extend_from_slice(a);
+                w.push(*p);
+                if let Some(hi) = ports.iter().max() {
+                    let mut bm = vec![0u8; (*hi as usize) / 8 + 1];
+                    for q in ports {
+                        bm[(*q as usize) / 8] |= 1 << (q % 8);
+                    }
+                    w.extend(bm);
+                }
+            }
+            Rd::Hinfo(c, o) => {
+                w.push(c.len() as u8);
+                w.extend_from_slice(c);
+                w.push(o.len() as u8);
+                w.extend_from_slice(o);
+            }
+            Rd::Minfo(a, b) => {
+                w = name_wire(a);
+                w.extend(name_wire(b));
+            }
+            Rd::Mx(p, n) => {
+                w.extend_from_slice(&p.to_be_bytes());
+                w.extend(name_wire(n));
+            }
+            Rd::Txt(ss) => {
+                for s in ss {
+                    w.push(s.len() as u8);
+                    w.extend_from_slice(s);
+                }
+            }
+            Rd::Aaaa(a) => w.extend_from_slice(a),
+            Rd::Srv(p, wt, port, n) => {
+                w.extend_from_slice(&p.to_be_bytes());
+                w.extend_from_slice(&wt.to_be_bytes());
+                w.extend_from_slice(&port.to_be_bytes());
+                w.extend(name_wire(n));
+            }
+            Rd::Raw(r) => w.extend_from_slice(r),
+        }
+        w
+    }
+}
+
+const LABEL_CHARS: &[u8] = b"abcdefghijklmnopqrstuvwxyzABCXYZ0123456789-_";
+const ODD_CHARS: &[u8] = b" \t.;()\"\\@$#\n\r*\x00\x7f\x80\xff'/:+";
+
+fn gen_label(rng: &mut Rng) -> Vec<u8> {
+    let len = match rng.below(20) {
+        0 => 63,
+        1 => rng.range(40, 63),
+        _ => rng.range(1, 8),
+    };
+    (0..len)
+        .map(|_| if rng.chance(1, 12) { *rng.pick(ODD_CHARS) } else if rng.chance(1, 60) { rng.byte() } else { *rng.pick(LABEL_CHARS) })
+        .collect()
+}
+
+fn wire_len(labels: &[Vec<u8>]) -> usize {
+    labels.iter().map(|l| l.len() + 1).sum::<usize>() + 1
+}
+
+/// a random name; with `suffix`, often below it
+fn gen_name(rng: &mut Rng, suffix: Option<&Vec<Vec<u8>>>, pool: &mut Vec<Vec<Vec<u8>>>) -> Vec<Vec<u8>> {
+    if !pool.is_empty() && rng.chance(1, 3) {
+        return rng.pick(pool).clone();
+    }
+    let mut n: Vec<Vec<u8>> = Vec::new();
+    let k = match rng.below(12) {
+        0 => 0,
+        1 => rng.range(3, 6),
+        _ => rng.range(1, 3),
+    };
+    for _ in 0..k {
+        n.push(gen_label(rng));
+    }
+    if let Some(s) = suffix {
+        if rng.chance(3, 4) {
+            n.extend(s.iter().cloned());
+        }
+    }
+    while wire_len(&n) > 255 {
+        n.remove(0);
+    }
+    if pool.len() < 6 {
+        pool.push(n.clone());
+    }
+    n
+}
+
+/// escape one octet for the given context. `must`: characters that cannot appear raw.
+fn esc_octet(rng: &mut Rng, b: u8, must: bool, out: &mut Vec<u8>) {
+    let choice = if must { rng.range(1, 2) } else if rng.chance(1, 10) { rng.range(1, 2) } else { 0 };
+    // `\#` would be read as the RFC 3597 marker in first RDATA position; digits after `\` start a
+    // decimal escape; so character escapes are only used for non-digits other than '#'
+    let char_ok = !b.is_ascii_digit() && b != b'#';
+    match choice {
+        0 => out.push(b),
+        1 if char_ok => {
+            out.push(b'\\');
+            out.push(b);
+        }
+        _ => out.extend_from_slice(format!("\\{:03}", b).as_bytes()),
+    }
+}
+
+fn name_special(b: u8) -> bool {
+    matches!(b, b' ' | b'\t' | b'(' | b')' | b';' | b'\n' | b'\r' | b'.' | b'\\')
+}
+
+/// text of labels (dot-separated, no trailing dot)
+fn render_labels(rng: &mut Rng, labels: &[Vec<u8>], out: &mut Vec<u8>, line_start: bool) {
+    let start = out.len();
+    for (i, l) in labels.iter().enumerate() {
+        if i > 0 {
+            out.push(b'.');
+        }
+        for (j, &b) in l.iter().enumerate() {
+            let first = i == 0 && j == 0;
+            let must = name_special(b) || (first && ((b == b'$' && line_start) || b == b'@' || b == b'"'));
+            esc_octet(rng, b, must, out);
+        }
+    }
+    // a lone "@" is escaped above; a lone "\#" cannot arise (no char escape for '#')
+    let _ = start;
+}
+
+/// render a name given the current origin; returns false if impossible (never)
+fn render_name(rng: &mut Rng, name: &[Vec<u8>], origin: Option<&Vec<Vec<u8>>>, out: &mut Vec<u8>, line_start: bool) {
+    if let Some(o) = origin {
+        if name == &o[..] && rng.chance(2, 3) {
+            out.push(b'@');
+            return;
+        }
+        if name.len() > o.len() && name[name.len() - o.len()..] == o[..] && rng.chance(2, 3) {
+            render_labels(rng, &name[..name.len() - o.len()], out, line_start);
+            return;
+        }
+    }
+    if name.is_empty() {
+        out.push(b'.');
+        return;
+    }
+    render_labels(rng, name, out, line_start);
+    out.push(b'.');
+}
+
+fn render_string(rng: &mut Rng, s: &[u8], out: &mut Vec<u8>, lines: &mut usize) -> bool {
+    let quoted = s.is_empty() || rng.chance(1, 2);
+    if quoted {
+        out.push(b'"');
+        for &b in s {
+            let must = b == b'"' || b == b'\\';
+            let before = out.len();
+            esc_octet(rng, b, must, out);
+            if b == b'\n' && out.len() - before <= 2 {
+                *lines += 1; // raw or `\`+newline: the reader counts it
+            }
+        }
+        out.push(b'"');
+    } else {
+        for (j, &b) in s.iter().enumerate() {
+            let must = matches!(b, b' ' | b'\t' | b'(' | b')' | b';' | b'\n' | b'\r' | b'\\') || (j == 0 && b == b'"');
+            let before = out.len();
+            esc_octet(rng, b, must, out);
+            if b == b'\n' && out.len() - before == 2 {
+                *lines += 1;
+            }
+        }
+    }
+    quoted
+}
+
+fn case_mix(rng: &mut Rng, s: &str) -> Vec<u8> {
+    s.bytes().map(|b| if rng.chance(1, 3) { b.to_ascii_lowercase() } else { b }).collect()
+}
+
+fn render_u(rng: &mut Rng, v: u64) -> Vec<u8> {
+    let mut s = String::new();
+    if rng.chance(1, 8) {
+        s.push('+');
+    }
+    if rng.chance(1, 8) {
+        for _ in 0..rng.range(1, 3) {
+            s.push('0');
+        }
+    }
+    s.push_str(&v.to_string());
+    s.into_bytes()
+}
+
+const TYPES: &[(&str, u16)] = &[
+    ("A", 1), ("NS", 2), ("MD", 3), ("MF", 4), ("CNAME", 5), ("SOA", 6), ("MB", 7), ("MG", 8), ("MR", 9),
+    ("WKS", 11), ("PTR", 12), ("HINFO", 13), ("MINFO", 14), ("MX", 15), ("TXT", 16), ("AAAA", 28), ("SRV", 33),
+];
+
+fn render_type(rng: &mut Rng, ty: u16) -> Vec<u8> {
+    if let Some((m, _)) = TYPES.iter().find(|(_, v)| *v == ty) {
+        if rng.chance(3, 4) {
+            return case_mix(rng, m);
+        }
+    }
+    let mut v = case_mix(rng, "TYPE");
+    v.extend(render_u_plain(rng, ty as u64));
+    v
+}
+
+fn render_u_plain(rng: &mut Rng, v: u64) -> Vec<u8> {
+    let mut s = String::new();
+    if rng.chance(1, 10) {
+        s.push('+');
+    }
+    if rng.chance(1, 10) {
+        s.push('0');
+    }
+    s.push_str(&v.to_string());
+    s.into_bytes()
+}
+
+fn render_class(rng: &mut Rng, c: u16) -> Vec<u8> {
+    let m = match c {
+        1 => Some("IN"),
+        3 => Some("CH"),
+        4 => Some("HS"),
+        _ => None,
+    };
+    if let Some(m) = m {
+        if rng.chance(3, 4) {
+            return case_mix(rng, m);
+        }
+    }
+    let mut v = case_mix(rng, "CLASS");
+    v.extend(render_u_plain(rng, c as u64));
+    v
+}
+
+fn render_ipv6(rng: &mut Rng, a: &[u8; 16]) -> Vec<u8> {
+    let g: Vec<u16> = (0..8).map(|i| u16::from_be_bytes([a[2 * i], a[2 * i + 1]])).collect();
+    let hexg = |rng: &mut Rng, x: u16| -> String {
+        let s = if rng.chance(1, 4) { format!("{:04x}", x) } else { format!("{:x}", x) };
+        if rng.chance(1, 3) { s.to_uppercase() } else { s }
+    };
+    // choose a zero run to compress (any run of >= 1 zero groups), or none
+    let mut runs: Vec<(usize, usize)> = Vec::new();
+    let mut i = 0;
+    while i < 8 {
+        if g[i] == 0 {
+            let mut j = i;
+            while j < 8 && g[j] == 0 {
+                j += 1;
+            }
+            runs.push((i, j));
+            i = j;
+        } else {
+            i += 1;
+        }
+    }
+    let v4tail = rng.chance(1, 4);
+    let ngroups = if v4tail { 6 } else { 8 };
+    let mut s = String::new();
+    let pick = if !runs.is_empty() && rng.chance(3, 4) {
+        let (a0, b0) = *rng.pick(&runs);
+        let b0 = b0.min(ngroups);
+        if a0 < b0 {
+            // optionally compress only part of the run
+            let a1 = if rng.chance(1, 4) { rng.range(a0, b0 - 1) } else { a0 };
+            Some((a1, b0))
+        } else {
+            None
+        }
+    } else {
+        None
+    };
+    let mut k = 0;
+    let mut first = true;
+    while k < ngroups {
+        if let Some((a1, b1)) = pick {
+            if k == a1 {
+                s.push_str("::");
+                k = b1;
+                first = true;
+                continue;
+            }
+        }
+        if !first {
+            s.push(':');
+        }
+        s.push_str(&hexg(rng, g[k]));
+        first = false;
+        k += 1;
+    }
+    if v4tail {
+        if !first {
+            s.push(':');
+        }
+        s.push_str(&format!("{}.{}.{}.{}", a[12], a[13], a[14], a[15]));
+    }
+    s.into_bytes()
+}
+
+pub struct Ctx {
+    pub origin: Option<Vec<Vec<u8>>>,
+    pub prev_owner: Option<Vec<Vec<u8>>>,
+    pub prev_ttl: Option<u32>,
+    pub prev_class: Option<u16>,
+    pub default_ttl: Option<u32>,
+}
+
+impl Ctx {
+    pub fn new() -> Self {
+        Ctx { origin: None, prev_owner: None, prev_ttl: None, prev_class: None, default_ttl: None }
+    }
+}
+
+pub struct Printer {
+    pub out: Vec<u8>,
+    pub line: usize,
+    pub paren: bool,
+    pub allow_paren: bool,
+    pub crlf_mode: usize, // 0 = LF, 1 = CRLF, 2 = mixed
+    pub expected: Vec<String>,
+    pub names: Vec<Vec<Vec<u8>>>,
+}
+
+impl Printer {
+    pub fn new(rng: &mut Rng) -> Self {
+        Printer {
+            out: Vec::new(),
+            line: 1,
+            paren: false,
+            allow_paren: rng.chance(2, 3),
+            crlf_mode: rng.below(3),
+            expected: Vec::new(),
+            names: Vec::new(),
+        }
+    }
+
+    fn newline(&mut self, rng: &mut Rng) {
+        let crlf = match self.crlf_mode {
+            0 => false,
+            1 => true,
+            _ => rng.chance(1, 2),
+        };
+        if crlf {
+            self.out.push(b'\r');
+        }
+        self.out.push(b'\n');
+        self.line += 1;
+    }
+
+    fn comment(&mut self, rng: &mut Rng) {
+        self.out.push(b';');
+        for _ in 0..rng.below(12) {
+            let b = if rng.chance(1, 6) { *rng.pick(ODD_CHARS) } else { *rng.pick(LABEL_CHARS) };
+            if b != b'\n' && b != b'\r' {
+                self.out.push(b);
+            }
+        }
+    }
+
+    fn ws(&mut self, rng: &mut Rng, min: usize) {
+        let n = if rng.chance(1, 6) { rng.range(min, 5) } else { min.max(1) - (1 - min.min(1)) };
+        for _ in 0..n {
+            self.out.push(if rng.chance(1, 4) { b'\t' } else { b' ' });
+        }
+    }
+
+    /// a gap between two fields: at least one separator
+    fn gap(&mut self, rng: &mut Rng) {
+        let mut sep = false;
+        let steps = if self.allow_paren && rng.chance(1, 4) { rng.range(1, 4) } else { 0 };
+        for _ in 0..steps {
+            match rng.below(5) {
+                0 => {
+                    self.ws(rng, 1);
+                    sep = true;
+                }
+                1 | 2 => {
+                    if self.paren {
+                        if rng.chance(1, 2) {
+                            self.out.push(b')');
+                            self.paren = false;
+                            sep = true;
+                        }
+                    } else {
+                        self.out.push(b'(');
+                        self.paren = true;
+                        sep = true;
+                    }
+                }
+                _ => {
+                    if self.paren {
+                        if rng.chance(1, 3) {
+                            self.comment(rng);
+                        }
+                        self.newline(rng);
+                        sep = true;
+                    }
+                }
+            }
+        }
+        if !sep || rng.chance(1, 2) {
+            self.ws(rng, 1);
+        }
+    }
+
+    /// the end of an entry: close parentheses, optional comment, line ending (or nothing at EOF)
+    fn eol(&mut self, rng: &mut Rng, last: bool) {
+        if rng.chance(1, 4) {
+            self.ws(rng, 1);
+        }
+        if self.allow_paren && rng.chance(1, 8) {
+            self.gap(rng);
+        }
+        if self.paren {
+            self.out.push(b')');
+            self.paren = false;
+            if rng.chance(1, 3) {
+                self.ws(rng, 1);
+            }
+        }
+        if rng.chance(1, 6) {
+            self.comment(rng);
+        }
+        if !(last && rng.chance(1, 2)) {
+            self.newline(rng);
+        }
+    }
+
+    fn name(&mut self, rng: &mut Rng, n: &[Vec<u8>], ctx: &Ctx, line_start: bool) {
+        let mut tmp = Vec::new();
+        render_name(rng, n, ctx.origin.as_ref(), &mut tmp, line_start);
+        // escaped raw newlines inside names bump the line counter
+        let mut i = 0;
+        while i < tmp.len() {
+            if tmp[i] == b'\\' {
+                if i + 1 < tmp.len() && tmp[i + 1] == b'\n' {
+                    self.line += 1;
+                }
+                i += if i + 1 < tmp.len() && tmp[i + 1].is_ascii_digit() { 4 } else { 2 };
+            } else {
+                i += 1;
+            }
+        }
+        self.out.extend(tmp);
+    }
+
+    fn field(&mut self, text: &[u8]) {
+        self.out.extend_from_slice(text);
+    }
+
+    fn generic(&mut self, rng: &mut Rng, wire: &[u8]) {
+        self.field(b"\\#");
+        self.gap(rng);
+        let l = render_u_plain(rng, wire.len() as u64);
+        self.field(&l);
+        if !wire.is_empty() {
+            self.gap(rng);
+            for b in wire {
+                let s = if rng.chance(1, 3) { format!("{:02X}", b) } else { format!("{:02x}", b) };
+                self.out.extend_from_slice(s.as_bytes());
+            }
+        }
+    }
+
+    fn rdata(&mut self, rng: &mut Rng, r: &Rr, ctx: &Ctx) {
+        let typed_ok = !matches!(r.rdata, Rd::Raw(_));
+        if !typed_ok || rng.chance(1, 6) {
+            let w = r.rdata.wire();
+            self.generic(rng, &w);
+            return;
+        }
+        match &r.rdata {
+            Rd::Name(n) => self.name(rng, n, ctx, false),
+            Rd::A(a) => self.field(format!("{}.{}.{}.{}", a[0], a[1], a[2], a[3]).as_bytes()),
+            Rd::ChA(n, a) => {
+                self.name(rng, n, ctx, false);
+                self.gap(rng);
+                let s = if rng.chance(1, 6) { format!("0{:o}", a) } else { format!("{:o}", a) };
+                self.field(s.as_bytes());
+            }
+            Rd::Soa(m, rn, v) => {
+                self.name(rng, m, ctx, false);
+                self.gap(rng);
+                self.name(rng, rn, ctx, false);
+                for x in v {
+                    self.gap(rng);
+                    let t = render_u(rng, *x as u64);
+                    self.field(&t);
+                }
+            }
+            Rd::Wks(a, p, ports) => {
+                self.field(format!("{}.{}.{}.{}", a[0], a[1], a[2], a[3]).as_bytes());
+                self.gap(rng);
+                let t = match p {
+                    6 if rng.chance(2, 3) => case_mix(rng, "TCP"),
+                    17 if rng.chance(2, 3) => case_mix(rng, "UDP"),
+                    _ => render_u(rng, *p as u64),
+                };
+                self.field(&t);
+                for q in ports {
+                    self.gap(rng);
+                    let t = render_u(rng, *q as u64);
+                    self.field(&t);
+                }
+            }
+            Rd::Hinfo(c, o) => {
+                let mut l = 0;
+                let mut t = Vec::new();
+                render_string(rng, c, &mut t, &mut l);
+                self.field(&t);
+                self.gap(rng);
+                t.clear();
+                render_string(rng, o, &mut t, &mut l);
+                self.field(&t);
+                self.line += l;
+            }
+            Rd::Minfo(a, b) => {
+                self.name(rng, a, ctx, false);
+                self.gap(rng);
+                self.name(rng, b, ctx, false);
+            }
+            Rd::Mx(p, n) => {
+                let t = render_u(rng, *p as u64);
+                self.field(&t);
+                self.gap(rng);
+                self.name(rng, n, ctx, false);
+            }
+            Rd::Txt(ss) => {
+                let mut prev_quoted = false;
+                for (i, s) in ss.iter().enumerate() {
+                    let mut l = 0;
+                    let mut t = Vec::new();
+                    let q = render_string(rng, s, &mut t, &mut l);
+                    if i > 0 {
+                        // a closing quote ends a field by itself
+                        if !(prev_quoted && rng.chance(1, 4)) {
+                            self.gap(rng);
+                        }
+                    }
+                    self.field(&t);
+                    self.line += l;
+                    prev_quoted = q;
+                }
+            }
+            Rd::Aaaa(a) => {
+                let t = render_ipv6(rng, a);
+                self.field(&t);
+            }
+            Rd::Srv(p, w, port, n) => {
+                for x in [p, w, port] {
+                    let t = render_u(rng, *x as u64);
+                    self.field(&t);
+                    self.gap(rng);
+                }
+                self.name(rng, n, ctx, false);
+            }
+            Rd::Raw(_) => unreachable!(),
+        }
+    }
+
+    /// render one record and update the simulated context
+    pub fn record(&mut self, rng: &mut Rng, r: &Rr, ctx: &mut Ctx, last: bool) {
+        let start_line = self.line;
+        // owner
+        if ctx.prev_owner.as_ref() == Some(&r.owner) && rng.chance(2, 3) {
+            self.ws(rng, 1);
+            if self.allow_paren && rng.chance(1, 10) {
+                self.gap(rng);
+            }
+        } else {
+            self.name(rng, &r.owner, ctx, true);
+            self.gap(rng);
+        }
+        // ttl / class
+        let implicit_ttl = ctx.default_ttl.or(ctx.prev_ttl);
+        let omit_ttl = implicit_ttl == Some(r.ttl) && rng.chance(1, 2);
+        let omit_class = ctx.prev_class == Some(r.class) && rng.chance(1, 2);
+        let ttl_t = render_u(rng, r.ttl as u64);
+        let class_t = render_class(rng, r.class);
+        match (omit_ttl, omit_class) {
+            (true, true) => {}
+            (true, false) => {
+                self.field(&class_t);
+                self.gap(rng);
+            }
+            (false, true) => {
+                self.field(&ttl_t);
+                self.gap(rng);
+            }
+            (false, false) => {
+                if rng.chance(1, 2) {
+                    self.field(&ttl_t);
+                    self.gap(rng);
+                    self.field(&class_t);
+                } else {
+                    self.field(&class_t);
+                    self.gap(rng);
+                    self.field(&ttl_t);
+                }
+                self.gap(rng);
+            }
+        }
+        let t = render_type(rng, r.ty);
+        self.field(&t);
+        // an RDATA-less generic form still needs `\# 0`
+        self.gap(rng);
+        self.rdata(rng, r, ctx);
+        self.eol(rng, last);
+        self.expected.push(format!(
+            "rec:{}:{}:{}:{}:{}:{}",
+            start_line,
+            hex(&name_wire(&r.owner)),
+            r.ttl,
+            r.class,
+            r.ty,
+            hex(&r.rdata.wire())
+        ));
+        ctx.prev_owner = Some(r.owner.clone());
+        ctx.prev_ttl = Some(r.ttl);
+        ctx.prev_class = Some(r.class);
+    }
+
+    pub fn blank(&mut self, rng: &mut Rng, last: bool) {
+        if rng.chance(1, 2) {
+            self.ws(rng, 1);
+        }
+        if rng.chance(1, 2) {
+            self.comment(rng);
+        }
+        if !(last && rng.chance(1, 2)) {
+            self.newline(rng);
+        }
+    }
+
+    pub fn origin(&mut self, rng: &mut Rng, o: &[Vec<u8>], ctx: &mut Ctx) {
+        let t = case_mix(rng, "$ORIGIN");
+        self.field(&t);
+        self.gap(rng);
+        self.name(rng, o, ctx, false);
+        self.eol(rng, false);
+        ctx.origin = Some(o.to_vec());
+    }
+
+    pub fn ttl(&mut self, rng: &mut Rng, v: u32, ctx: &mut Ctx) {
+        let t = case_mix(rng, "$TTL");
+        self.field(&t);
+        self.gap(rng);
+        let t = render_u(rng, v as u64);
+        self.field(&t);
+        self.eol(rng, false);
+        ctx.default_ttl = Some(v);
+    }
+}
+
+fn gen_cstr(rng: &mut Rng) -> Vec<u8> {
+    let len = match rng.below(30) {
+        0 => 255,
+        1 => 0,
+        2 => rng.range(100, 254),
+        _ => rng.range(1, 12),
+    };
+    (0..len)
+        .map(|_| if rng.chance(1, 8) { *rng.pick(ODD_CHARS) } else if rng.chance(1, 40) { rng.byte() } else { *rng.pick(LABEL_CHARS) })
+        .collect()
+}
+
+fn gen_u32(rng: &mut Rng) -> u32 {
+    match rng.below(8) {
+        0 => 0,
+        1 => u32::MAX,
+        2 => 0x7fff_ffff,
+        3 => 0x8000_0000,
+        _ => rng.next() as u32 >> rng.below(32),
+    }
+}
+
+fn gen_u16(rng: &mut Rng) -> u16 {
+    match rng.below(8) {
+        0 => 0,
+        1 => u16::MAX,
+        _ => (rng.next() as u16) >> rng.below(16),
+    }
+}
+
+fn gen_ipv6(rng: &mut Rng) -> [u8; 16] {
+    let mut a = [0u8; 16];
+    for i in 0..8 {
+        let g: u16 = match rng.below(4) {
+            0 | 1 => 0,
+            2 => rng.below(256) as u16,
+            _ => rng.next() as u16,
+        };
+        a[2 * i] = (g >> 8) as u8;
+        a[2 * i + 1] = g as u8;
+    }
+    a
+}
+
+pub fn gen_rr(rng: &mut Rng, ctx: &Ctx, pool: &mut Vec<Vec<Vec<u8>>>, last_class: u16) -> Rr {
+    let o = ctx.origin.clone();
+    let owner = if ctx.prev_owner.is_some() && rng.chance(1, 3) {
+        ctx.prev_owner.clone().unwrap()
+    } else {
+        gen_name(rng, o.as_ref(), pool)
+    };
+    let class = if rng.chance(3, 4) {
+        last_class
+    } else {
+        *rng.pick(&[1u16, 1, 1, 3, 4, 2, 254, 65535, 0])
+    };
+    let ttl = match rng.below(6) {
+        0 => ctx.prev_ttl.unwrap_or(3600),
+        1 => ctx.default_ttl.unwrap_or(300),
+        2 => gen_u32(rng) & 0x7fff_ffff,
+        _ => *rng.pick(&[0u32, 60, 300, 3600, 86400, 0x7fff_ffff]),
+    };
+    let mut nm = |rng: &mut Rng| gen_name(rng, o.as_ref(), pool);
+    let (ty, rdata) = match rng.below(16) {
+        0 => (*rng.pick(&[2u16, 3, 4, 5, 7, 8, 9, 12]), Rd::Name(nm(rng))),
+        1 => {
+            if class == 1 {
+                (1, Rd::A([rng.byte(), rng.byte(), rng.byte(), rng.byte()]))
+            } else if class == 3 {
+                (1, Rd::ChA(nm(rng), gen_u16(rng)))
+            } else {
+                (1, Rd::Raw((0..rng.below(6)).map(|_| rng.byte()).collect()))
+            }
+        }
+        2 => (6, Rd::Soa(nm(rng), nm(rng), [gen_u32(rng), gen_u32(rng), gen_u32(rng), gen_u32(rng), gen_u32(rng)])),
+        3 => {
+            if class == 1 {
+                let n = if rng.chance(1, 4) { 0 } else { rng.range(1, 5) };
+                let ports = (0..n).map(|_| if rng.chance(1, 8) { gen_u16(rng) } else { rng.below(1024) as u16 }).collect();
+                (11, Rd::Wks([rng.byte(), rng.byte(), rng.byte(), rng.byte()], *rng.pick(&[6u8, 17, 0, 1, 255]), ports))
+            } else {
+                (11, Rd::Raw((0..rng.below(8)).map(|_| rng.byte()).collect()))
+            }
+        }
+        4 => (13, Rd::Hinfo(gen_cstr(rng), gen_cstr(rng))),
+        5 => (14, Rd::Minfo(nm(rng), nm(rng))),
+        6 => (15, Rd::Mx(gen_u16(rng), nm(rng))),
+        7 | 8 => {
+            let n = rng.range(1, 4);
+            (16, Rd::Txt((0..n).map(|_| gen_cstr(rng)).collect()))
+        }
+        9 => {
+            if class == 1 {
+                (28, Rd::Aaaa(gen_ipv6(rng)))
+            } else {
+                (28, Rd::Raw((0..rng.below(20)).map(|_| rng.byte()).collect()))
+            }
+        }
+        10 => {
+            if class == 1 {
+                (33, Rd::Srv(gen_u16(rng), gen_u16(rng), gen_u16(rng), nm(rng)))
+            } else {
+                (33, Rd::Raw((0..rng.below(12)).map(|_| rng.byte()).collect()))
+            }
+        }
+        11 => {
+            // unknown type: anything
+            let ty = *rng.pick(&[0u16, 17, 18, 24, 27, 29, 99, 255, 256, 65280, 65535, 251, 40, 42, 249]);
+            let n = if rng.chance(1, 4) { 0 } else { rng.below(24) };
+            (ty, Rd::Raw((0..n).map(|_| rng.byte()).collect()))
+        }
+        12 => (2, Rd::Name(nm(rng))),
+        13 => {
+            if class == 1 {
+                (1, Rd::A([rng.byte(), rng.byte(), rng.byte(), rng.byte()]))
+            } else {
+                (16, Rd::Txt(vec![gen_cstr(rng)]))
+            }
+        }
+        14 => (5, Rd::Name(nm(rng))),
+        _ => (15, Rd::Mx(gen_u16(rng), nm(rng))),
+    };
+    Rr { owner, ttl, class, ty, rdata }
+}
+
+/// a whole pretty-printed zone file: (text, expected items)
+pub fn pretty_file(rng: &mut Rng, max_entries: usize) -> (Vec<u8>, Vec<String>) {
+    let mut p = Printer::new(rng);
+    let mut ctx = Ctx::new();
+    let mut pool: Vec<Vec<Vec<u8>>> = Vec::new();
+    let n = rng.range(1, max_entries);
+    let mut class = *rng.pick(&[1u16, 1, 1, 1, 3, 4, 7]);
+    // a plausible start: $ORIGIN most of the time
+    if rng.chance(4, 5) {
+        let o = gen_name(rng, None, &mut pool);
+        p.origin(rng, &o, &mut ctx);
+    }
+    if rng.chance(1, 2) {
+        let v = *rng.pick(&[0u32, 300, 3600, 86400, 0x7fff_ffff]);
+        p.ttl(rng, v, &mut ctx);
+    }
+    for i in 0..n {
+        let last = i + 1 == n;
+        match rng.below(14) {
+            0 => p.blank(rng, last),
+            1 => {
+                let cur = ctx.origin.clone();
+                let o = gen_name(rng, cur.as_ref(), &mut pool);
+                p.origin(rng, &o, &mut ctx);
+            }
+            2 => {
+                let v = if rng.chance(1, 2) { gen_u32(rng) & 0x7fff_ffff } else { *rng.pick(&[0u32, 60, 3600]) };
+                p.ttl(rng, v, &mut ctx);
+            }
+            _ => {
+                if rng.chance(1, 10) {
+                    class = *rng.pick(&[1u16, 3, 4, 1, 9]);
+                }
+                let r = gen_rr(rng, &ctx, &mut pool, class);
+                p.record(rng, &r, &mut ctx, last);
+            }
+        }
+    }
+    (p.out, p.expected)
+}
+
+// ------------------------------------------------------------------------------------------
+// malformed streams (C24)
+// ------------------------------------------------------------------------------------------
+
+const TOKENS: &[&[u8]] = &[
+    b"a", b"b.c", b"example.", b"@", b".", b"..", b"a..b", b"\\", b"\\1", b"\\12", b"\\300", b"\\255", b"\\.", b"x\\ y",
+    b"IN", b"in", b"CH", b"HS", b"CLASS1", b"CLASS65536", b"CLASS+3", b"class3",
+    b"A", b"a", b"NS", b"CNAME", b"SOA", b"MX", b"TXT", b"AAAA", b"SRV", b"WKS", b"HINFO", b"MINFO", b"PTR", b"NULL", b"OPT", b"TSIG",
+    b"TYPE1", b"TYPE10", b"TYPE41", b"TYPE250", b"TYPE65535", b"TYPE65536", b"TYPE+1", b"type16", b"MB", b"MD",
+    b"0", b"1", b"5", b"+5", b"-5", b"007", b"3600", b"4294967295", b"4294967296", b"2147483648", b"65535", b"65536", b"256",
+    b"1.2.3.4", b"1.2.3", b"01.2.3.4", b"255.255.255.255", b"256.1.1.1", b"::", b"::1", b"1::", b"1:2:3:4:5:6:7:8", b"::ffff:1.2.3.4", b"1:::2",
+    b"(", b")", b"(", b")", b";", b";c", b"; ( comment )", b"\"", b"\"a b\"", b"\"\"", b"\"a\\\"b\"", b"\"x(y;z)\"", b"\"un", b"a\"b",
+    b"\\#", b"\\#", b"\\# 0", b"\\# 1 00", b"\\# 4 01020304", b"\\# 2 0102", b"\\# 3 000000", b"0102", b"zz", b"0", b"abc", b"ABCDEF", b"0g",
+    b"$ORIGIN", b"$origin", b"$TTL", b"$ttl", b"$INCLUDE", b"$include", b"$FOO", b"$", b"$ORIGINx", b"file.zone", b"\"a file\"", b"sub/f",
+    b"TCP", b"udp", b"17", b"\n", b"\n", b"\n", b"\r\n", b"\r", b" ", b"\t", b"  ", b"\x00", b"\xff", b"\xc3\xa9", b"\xc3", b"\xe2\x82",
+    b"01234567", b"8", b"177777", b"200000",
+];
+
+fn pickb<'a>(rng: &mut Rng, xs: &[&'a [u8]]) -> &'a [u8] {
+    xs[rng.below(xs.len())]
+}
+
+fn token_soup(rng: &mut Rng) -> Vec<u8> {
+    let n = rng.range(1, 24);
+    let mut out = Vec::new();
+    for _ in 0..n {
+        out.extend_from_slice(pickb(rng, TOKENS));
+        match rng.below(6) {
+            0 => {}
+            1 => out.push(b'\n'),
+            2 => out.push(b'\t'),
+            _ => out.push(b' '),
+        }
+    }
+    out
+}
+
+/// record-shaped soup: owner ttl/class type rdata-ish tokens, so that the RDATA parsers are
+/// reached with wrong and boundary arguments
+fn record_soup(rng: &mut Rng) -> Vec<u8> {
+    let mut out = Vec::new();
+    let lines = rng.range(1, 5);
+    for _ in 0..lines {
+        if rng.chance(1, 5) {
+            out.extend_from_slice(b"$ORIGIN o.");
+            out.push(b'\n');
+        }
+        match rng.below(4) {
+            0 => out.extend_from_slice(b" "),
+            1 => out.extend_from_slice(b"@ "),
+            _ => {
+                out.extend_from_slice(pickb(rng, &[&b"a"[..], b"b.c.", b"x", b"\\@", b"."]));
+                out.push(b' ');
+            }
+        }
+        if rng.chance(1, 2) {
+            out.extend_from_slice(pickb(rng, &[&b"5 "[..], b"IN ", b"5 IN ", b"IN 5 ", b"CH ", b"CLASS7 ", b"+0 in ", b"5 5 ", b"IN IN "]));
+        }
+        out.extend_from_slice(pickb(rng, &[
+            &b"A"[..], b"NS", b"SOA", b"MX", b"TXT", b"AAAA", b"SRV", b"WKS", b"HINFO", b"MINFO", b"PTR", b"TYPE1", b"TYPE99", b"CNAME", b"TYPE6",
+        ]));
+        let k = rng.below(9);
+        for _ in 0..k {
+            out.push(if rng.chance(1, 10) { b'\t' } else { b' ' });
+            out.extend_from_slice(pickb(rng, TOKENS));
+        }
+        out.extend_from_slice(pickb(rng, &[&b"\n"[..], b"\r\n", b"", b" ; c\n", b" )\n", b"\n\n"]));
+    }
+    out
+}
+
+fn mutate(rng: &mut Rng, f: &[u8]) -> Vec<u8> {
+    let mut v = f.to_vec();
+    let n = rng.range(1, 3);
+    for _ in 0..n {
+        if v.is_empty() {
+            break;
+        }
+        let i = rng.below(v.len());
+        match rng.below(6) {
+            0 => v.truncate(i),
+            1 => {
+                v.remove(i);
+            }
+            2 | 3 => v.insert(i, *rng.pick(b" \t\n\r();\"\\.@$#0a9:-+")),
+            4 => v[i] = *rng.pick(b" \t\n\r();\"\\.@$#0a9:-+"),
+            _ => v.insert(i, rng.byte()),
+        }
+    }
+    v
+}
+
+// ------------------------------------------------------------------------------------------
+// emitting
+// ------------------------------------------------------------------------------------------
+
+fn emit_case(em: &mut Emitter, op: &str, pre: &[u8], inp: &[u8], ch: &str, extra: Option<&str>) {
+    let (ph, ih) = (hex(pre), hex(inp));
+    let case = match extra {
+        Some(x) => format!("{} {} {} {} {}", op, ph, ih, ch, x),
+        None => format!("{} {} {} {}", op, ph, ih, ch),
+    };
+    let mut args: Vec<&str> = vec![&ph, &ih, ch];
+    if let Some(x) = extra {
+        args.push(x);
+    }
+    let r = run(op, &args).unwrap();
+    em.emit(&case, &r);
+}
+
+fn chunking(rng: &mut Rng) -> String {
+    let k = if rng.chance(1, 3) { 0 } else { rng.range(1, 7) };
+    if rng.chance(1, 8) { format!("r{}", k) } else { k.to_string() }
+}
+
+/// emit zf + zfc (+ zfv when the parse ends in an error)
+fn emit_c24(rng: &mut Rng, em: &mut Emitter, pre: &[u8], inp: &[u8]) {
+    let ch = chunking(rng);
+    emit_case(em, "zf", pre, inp, &ch, None);
+    emit_case(em, "zfc", pre, inp, &ch, None);
+    emit_case(em, "zfv", pre, inp, &ch, None);
+}
+
+fn emit_std(em: &mut Emitter, op: &str, s: &[u8]) {
+    let h = hex(s);
+    let r = run(op, &[&h]).unwrap();
+    em.emit(&format!("{} {}", op, h), &r);
+}
+
+const PRELUDES: &[&[u8]] = &[
+    b"",
+    b"$ORIGIN example.com.\n",
+    b"$ORIGIN example.com.\n$TTL 3600\n",
+    b"$ORIGIN .\nprev 300 IN A 1.2.3.4\n",
+    b"$ORIGIN t.\n$TTL 60\nhost.other. 77 CH TXT x\n",
+    b"p.q. 5 HS TYPE300 \\# 0\n",
+];
+
+fn std_streams(rng: &mut Rng, thorough: bool, em: &mut Emitter) {
+    // integers
+    let ints: &[&[u8]] = &[
+        b"", b"+", b"-", b"0", b"+0", b"-0", b"00", b"1", b"255", b"256", b"65535", b"65536", b"4294967295", b"4294967296",
+        b"99999999999999999999", b"000000000000000000000001", b"+255", b"++1", b"1+", b" 1", b"1 ", b"0x10", b"1_0", b"12a", b"\xd9\xa1",
+        b"2147483647", b"2147483648", b"+4294967295", b"+4294967296", b"-1",
+    ];
+    for s in ints {
+        for op in ["zf.u32", "zf.u16", "zf.u8"] {
+            emit_std(em, op, s);
+        }
+    }
+    let n = if thorough { 40_000 } else { 3_000 };
+    for _ in 0..n {
+        let len = rng.below(13);
+        let s: Vec<u8> = (0..len).map(|_| *rng.pick(b"0123456789012345678901234567890123456789+-a ")).collect();
+        emit_std(em, *rng.pick(&["zf.u32", "zf.u16", "zf.u8"]), &s);
+    }
+    // class / type
+    let codes: &[&[u8]] = &[
+        b"IN", b"in", b"iN", b"CH", b"HS", b"hs", b"CLASS", b"CLASS0", b"CLASS1", b"class65535", b"CLASS65536", b"CLASS+1", b"CLASS-1", b"CLAS1",
+        b"CLASSx", b"ANY", b"NONE", b"*", b"", b"A", b"a", b"AAAA", b"aaaa", b"TYPE", b"TYPE0", b"TYPE1", b"type255", b"TYPE65535", b"TYPE65536",
+        b"TYPE+28", b"TYP1", b"NULL", b"OPT", b"TSIG", b"AXFR", b"IXFR", b"MAILB", b"SRV", b"WKS", b"TXT", b"TXTT", b"TYPE 1", b"TYPE01",
+        b"CLASS01", b"CLASS\xc3\xa9", b"CLAS\xc3\xa9", b"TYP\xc3\xa9", b"\xc3\xa9", b"IN\x00",
+    ];
+    for s in codes {
+        emit_std(em, "zf.class", s);
+        emit_std(em, "zf.type", s);
+    }
+    // utf-8
+    let n = if thorough { 40_000 } else { 3_000 };
+    for _ in 0..n {
+        let len = rng.below(6);
+        let s: Vec<u8> = (0..len)
+            .map(|_| *rng.pick(&[0x00u8, 0x41, 0x7f, 0x80, 0x8f, 0x90, 0x9f, 0xa0, 0xbf, 0xc0, 0xc1, 0xc2, 0xdf, 0xe0, 0xe1, 0xec, 0xed, 0xee, 0xef, 0xf0, 0xf1, 0xf3, 0xf4, 0xf5, 0xff]))
+            .collect();
+        emit_std(em, "zf.utf8", &s);
+    }
+    // IPv4
+    let v4: &[&[u8]] = &[
+        b"", b"1.2.3.4", b"0.0.0.0", b"255.255.255.255", b"256.0.0.0", b"1.2.3", b"1.2.3.4.5", b"1.2.3.", b".1.2.3", b"1..2.3", b"01.2.3.4", b"1.2.3.04",
+        b"00.0.0.0", b"0.0.0.00", b"1.2.3.4 ", b" 1.2.3.4", b"1.2.3.4a", b"a.b.c.d", b"1234.1.1.1", b"001.1.1.1", b"1.1.1.0001", b"+1.2.3.4", b"1.2.3.-4",
+        b"127.0.0.1", b"100.100.100.100", b"255.255.255.2555", b"1.2.3.4\x00", b"\xd9\xa1.2.3.4", b"0x1.2.3.4", b"1.2.3.4.", b"192.168.001.1",
+    ];
+    for s in v4 {
+        emit_std(em, "zf.ipv4", s);
+        emit_std(em, "zf.ipv6", s);
+    }
+    let v6: &[&[u8]] = &[
+        b"::", b"::1", b"1::", b"::1:2", b"1:2::", b"1:2:3:4:5:6:7:8", b"1:2:3:4:5:6:7::", b"::2:3:4:5:6:7:8", b"1:2:3:4:5:6:7:8:9", b"1:2:3:4:5:6:7",
+        b"1::2::3", b":::", b"::::", b":", b":1", b"1:", b"1:2:3:4:5:6:7:", b":1:2:3:4:5:6:7", b"12345::", b"::12345", b"0000::", b"00000::", b"g::",
+        b"::ffff:1.2.3.4", b"::1.2.3.4", b"1.2.3.4::", b"1:2:3:4:5:6:1.2.3.4", b"1:2:3:4:5:6:7:1.2.3.4", b"1:2:3:4:5:1.2.3.4", b"1::1.2.3.4", b"::1.2.3.4:5",
+        b"::1.2.3", b"::1.2.3.4.5", b"::01.2.3.4", b"::256.2.3.4", b"1:2:3:4:5:6:7:8::", b"::1:2:3:4:5:6:7:8", b"1:2:3:4::5:6:7:8", b"1:2:3:4::5:6:7",
+        b"1:2:3::4:5:6:7", b"FFFF::ffff", b"AbCd::Ef01", b"fe80::1%eth0", b"fe80::1%1", b"[::1]", b"::1 ", b" ::1", b"1:2:3:4:5:6:7:8 ", b"::ffff:1.2.3.4 ",
+        b"1:2::3:4::5", b"::0.0.0.0", b"0:0:0:0:0:0:0:0", b"0:0:0:0:0:0:0.0.0.0", b"1:2:3:4:5:6:7.8.9.10:11", b"::1:2.3.4.5", b"1::2:3.4.5.6", b"::.1.2.3",
+        b"1:2:3:4:5:6::1.2.3.4", b"1:2:3:4:5::1.2.3.4", b"::1.2.3.4.", b"::1.2.3.256", b"1:2:3:4:5:6:7::8", b"::ffff:999.1.1.1", b"::f:1234567.1.1.1",
+    ];
+    for s in v6 {
+        emit_std(em, "zf.ipv6", s);
+        emit_std(em, "zf.ipv4", s);
+    }
+    let n = if thorough { 300_000 } else { 25_000 };
+    for i in 0..n {
+        // structured random: tokens of hex groups, colons, dots
+        let mut s = Vec::new();
+        let toks = rng.range(1, 12);
+        for _ in 0..toks {
+            match rng.below(10) {
+                0..=3 => {
+                    let l = rng.range(1, 5);
+                    for _ in 0..l {
+                        s.push(*rng.pick(b"0123456789abcdefABCF00"));
+                    }
+                }
+                4 | 5 => s.push(b':'),
+                6 => s.extend_from_slice(b"::"),
+                7 => s.push(b'.'),
+                8 => s.extend_from_slice(rng.below(300).to_string().as_bytes()),
+                _ => s.push(*rng.pick(b"g%/ +-\x00")),
+            }
+        }
+        emit_std(em, if i % 4 == 0 { "zf.ipv4" } else { "zf.ipv6" }, &s);
+    }
+    // rendered valid addresses
+    let n = if thorough { 100_000 } else { 8_000 };
+    for _ in 0..n {
+        let a = gen_ipv6(rng);
+        let s = render_ipv6(rng, &a);
+        emit_std(em, "zf.ipv6", &s);
+        let q = format!("{}.{}.{}.{}", rng.byte(), rng.byte(), rng.below(300), rng.below(12));
+        emit_std(em, "zf.ipv4", q.as_bytes());
+    }
+}
+
+fn boundary_streams(rng: &mut Rng, em: &mut Emitter, thorough: bool) {
+    // field-size limit: MAX_READ_FIELD_SIZE = 65536
+    for n in [65_535usize, 65_536, 65_537, 70_000] {
+        let mut f = b"a 5 IN TXT x\nb ".to_vec();
+        f.extend(std::iter::repeat(b'7').take(n));
+        f.extend_from_slice(b" IN A 1.2.3.4\n");
+        emit_c24(rng, em, b"$ORIGIN o.\n", &f);
+        // a long type field, a long u16 field
+        let mut g = b"a 5 IN ".to_vec();
+        g.extend(std::iter::repeat(b'A').take(n));
+        g.extend_from_slice(b" x\n");
+        emit_c24(rng, em, b"$ORIGIN o.\n", &g);
+    }
+    // include path limit: INCLUDE_PATH_MAX = 65536 (unquoted and quoted)
+    for n in [65_535usize, 65_536, 65_537] {
+        let mut f = b"$INCLUDE ".to_vec();
+        f.extend(std::iter::repeat(b'p').take(n));
+        f.extend_from_slice(b"\nx 1 IN A 1.1.1.1\n");
+        emit_c24(rng, em, b"$ORIGIN o.\n", &f);
+        let mut g = b"$INCLUDE \"".to_vec();
+        g.extend(std::iter::repeat(b'p').take(n));
+        g.extend_from_slice(b"\" o.\n");
+        emit_c24(rng, em, b"$ORIGIN o.\n", &g);
+    }
+    // character-string limit 255/256, quoted and unquoted, with escapes at the boundary
+    for n in [254usize, 255, 256] {
+        for quoted in [false, true] {
+            let mut f = b"a 5 IN TXT ".to_vec();
+            if quoted {
+                f.push(b'"');
+            }
+            f.extend(std::iter::repeat(b'x').take(n - 1));
+            f.extend_from_slice(if rng.chance(1, 2) { b"\\065" } else { b"y" });
+            if quoted {
+                f.push(b'"');
+            }
+            f.push(b'\n');
+            emit_c24(rng, em, b"$ORIGIN o.\n", &f);
+        }
+    }
+    // TXT RDATA limit: 65535 octets (255 strings of 255 octets + … )
+    for extra in [0usize, 1, 2] {
+        let mut f = b"a 5 IN TXT".to_vec();
+        for _ in 0..255 {
+            f.push(b' ');
+            f.extend(std::iter::repeat(b'x').take(255));
+        }
+        // 255 * 256 = 65280 so far; add strings to reach 65535 / 65536
+        f.push(b' ');
+        f.extend(std::iter::repeat(b'y').take(253 + extra));
+        f.push(b'\n');
+        emit_c24(rng, em, b"$ORIGIN o.\n", &f);
+    }
+    // names: 255-octet limit, 63-octet labels, 127 labels, relative + origin overflow
+    let l63 = "a".repeat(63);
+    let l64 = "a".repeat(64);
+    let mut cases: Vec<String> = vec![
+        format!("{l63}.{l63}.{l63}.{}. 5 IN A 1.2.3.4\n", "b".repeat(61)),
+        format!("{l63}.{l63}.{l63}.{}. 5 IN A 1.2.3.4\n", "b".repeat(62)),
+        format!("{l64}. 5 IN A 1.2.3.4\n"),
+        format!("{}. 5 IN A 1.2.3.4\n", "a.".repeat(126) + "a"),
+        format!("{}. 5 IN A 1.2.3.4\n", "a.".repeat(127) + "a"),
+        format!("$ORIGIN {l63}.{l63}.{l63}.\n{} 5 IN A 1.2.3.4\n", "b".repeat(61)),
+        format!("$ORIGIN {l63}.{l63}.{l63}.\n{} 5 IN A 1.2.3.4\n", "b".repeat(62)),
+        format!("$ORIGIN {}.\n{} 5 IN NS x\n", "o.".repeat(100) + "o", "a.".repeat(26) + "a"),
+        format!("$ORIGIN {}.\n{} 5 IN NS x\n", "o.".repeat(100) + "o", "a.".repeat(25) + "a"),
+    ];
+    cases.push("a 5 IN WKS 1.2.3.4 TCP 65535 0 7 8\n".into());
+    cases.push("a 5 IN WKS 1.2.3.4 256\n".into());
+    cases.push("a 5 CH A ch. 177777\nb CH A ch. 200000\n".into());
+    cases.push("a 5 CH A ch. 17777777777777777777777\n".into());
+    for c in &cases {
+        emit_c24(rng, em, b"$ORIGIN o.\n", c.as_bytes());
+    }
+    // WKS with very many ports (the u16::MAX cap) — thorough only (large)
+    if thorough {
+        for n in [65_534usize, 65_535, 65_536] {
+            let mut f = b"a 5 IN WKS 1.2.3.4 6".to_vec();
+            for i in 0..n {
+                f.extend_from_slice(format!(" {}", i % 50).as_bytes());
+            }
+            f.push(b'\n');
+            emit_c24(rng, em, b"$ORIGIN o.\n", &f);
+        }
+    }
+    // generic RDATA lengths
+    for n in [0usize, 1, 255, 256, 65_535] {
+        if n > 300 && !thorough {
+            continue;
+        }
+        let mut f = format!("a 5 IN TYPE999 \\# {} ", n).into_bytes();
+        f.extend(std::iter::repeat(b"ab").take(n).flatten());
+        f.push(b'\n');
+        emit_c24(rng, em, b"$ORIGIN o.\n", &f);
+    }
+}
+
+/// records in RFC 3597 `\#` form: refused types with well-formed RDATA, and known types whose
+/// RDATA is valid, slightly damaged, or random (the validators must be applied)
+fn generic_streams(rng: &mut Rng, em: &mut Emitter, thorough: bool) {
+    let n = if thorough { 20_000 } else { 1_500 };
+    let mut pool: Vec<Vec<Vec<u8>>> = Vec::new();
+    for i in 0..n {
+        let mut ctx = Ctx::new();
+        ctx.origin = Some(vec![b"o".to_vec()]);
+        let class = *rng.pick(&[1u16, 1, 1, 3, 4, 255]);
+        let r = gen_rr(rng, &ctx, &mut pool, class);
+        let mut wire = r.rdata.wire();
+        let mut ty = r.ty;
+        match i % 5 {
+            0 => {
+                // a refused type (NULL, OPT, TSIG) by mnemonic or number, with plausible RDATA
+                ty = *rng.pick(&[10u16, 41, 250]);
+                if rng.chance(1, 2) {
+                    wire.clear();
+                }
+            }
+            1 => {} // valid RDATA in generic form
+            2 => {
+                // damage: truncate / extend / flip one octet
+                if !wire.is_empty() && rng.chance(1, 2) {
+                    let k = rng.below(wire.len());
+                    wire.truncate(k);
+                } else if rng.chance(1, 2) {
+                    wire.push(rng.byte());
+                } else if !wire.is_empty() {
+                    let k = rng.below(wire.len());
+                    wire[k] = rng.byte();
+                }
+            }
+            3 => {
+                wire = (0..rng.below(12)).map(|_| rng.byte()).collect();
+            }
+            _ => {
+                // known type, other class (the class-specific arms)
+            }
+        }
+        let tyt: Vec<u8> = match (ty, rng.below(2)) {
+            (10, 0) => b"NULL".to_vec(),
+            (41, 0) => b"OPT".to_vec(),
+            (250, 0) => b"TSIG".to_vec(),
+            _ => render_type(rng, ty),
+        };
+        let mut f = b"x. 5 ".to_vec();
+        f.extend(render_class(rng, r.class));
+        f.push(b' ');
+        f.extend(tyt);
+        f.extend_from_slice(format!(" \\# {} ", wire.len()).as_bytes());
+        for b in &wire {
+            f.extend_from_slice(format!("{:02x}", b).as_bytes());
+        }
+        f.extend_from_slice(b"\nnext. 5 IN A 1.2.3.4\n");
+        emit_c24(rng, em, b"", &f);
+    }
+}
+
+pub fn gen(rng: &mut Rng, thorough: bool, em: &mut Emitter) {
+    std_streams(rng, thorough, em);
+    boundary_streams(rng, em, thorough);
+    generic_streams(rng, em, thorough);
+    // 1. pretty-printer stream (C23): zfp with the generating record list as the expectation
+    let n = if thorough { 60_000 } else { 5_000 };
+    let mut valid_files: Vec<Vec<u8>> = Vec::new();
+    for i in 0..n {
+        let (text, expected) = pretty_file(rng, if i % 10 == 0 { 25 } else { 6 });
+        let exp = if expected.is_empty() { "-".to_string() } else { expected.join(";") };
+        let ch = chunking(rng);
+        let ch = ch.trim_start_matches('r').to_string();
+        emit_case(em, "zfp", b"", &text, &ch, Some(&exp));
+        if i % 4 == 0 {
+            emit_case(em, "zfc", b"", &text, &ch, None);
+        }
+        if valid_files.len() < 400 || rng.chance(1, 20) {
+            if valid_files.len() >= 400 {
+                let k = rng.below(valid_files.len());
+                valid_files[k] = text;
+            } else {
+                valid_files.push(text);
+            }
+        }
+    }
+    // 2. mutations of valid files
+    let n = if thorough { 120_000 } else { 8_000 };
+    for _ in 0..n {
+        let f = rng.pick(&valid_files).clone();
+        let m = mutate(rng, &f);
+        emit_c24(rng, em, b"", &m);
+    }
+    // 3. token soups, with and without a prelude
+    let n = if thorough { 120_000 } else { 8_000 };
+    for i in 0..n {
+        let s = if i % 2 == 0 { token_soup(rng) } else { record_soup(rng) };
+        let pre = *rng.pick(PRELUDES);
+        emit_c24(rng, em, pre, &s);
+    }
+    // 4. random bytes (biased to the syntax alphabet)
+    let n = if thorough { 60_000 } else { 4_000 };
+    for _ in 0..n {
+        let len = rng.below(40);
+        let s: Vec<u8> = (0..len)
+            .map(|_| if rng.chance(2, 3) { *rng.pick(b" \t\n\r();\"\\.@$#0123456789abcINATX:") } else { rng.byte() })
+            .collect();
+        let pre = *rng.pick(PRELUDES);
+        emit_c24(rng, em, pre, &s);
+    }
+    // 5. thorough: every single-octet deletion (and every truncation) of a few valid files
+    if thorough {
+        for f in valid_files.iter().take(12) {
+            for i in 0..f.len() {
+                let mut v = f.clone();
+                v.remove(i);
+                emit_c24(rng, em, b"", &v);
+                emit_c24(rng, em, b"", &f[..i]);
+            }
+        }
+    } else {
+        for f in valid_files.iter().take(2) {
+            for i in 0..f.len().min(150) {
+                let mut v = f.clone();
+                v.remove(i);
+                emit_c24(rng, em, b"", &v);
+            }
+        }
+    }
+}
